@@ -252,32 +252,38 @@ def explore(ck: Check, slow: bool) -> None:
                 hist = [([rng.choice(vocab) for _ in range(rng.randint(1, 3))], rng.choice(list(classes)))
                         for _ in range(rng.randint(1, 6))]
             reg2 = WBFileRegistry()
-            for names, cname in hist:
-                reg2.file_suffix(*names)(classes[cname])
-            regs2 = [",".join(names) + "=" + cname for names, cname in hist]
-            for sfx in vocab + [".zz"]:
-                ck.case(("reghist", tuple(regs2), sfx), feature=f"registry-history/{len(hist)}")
-                ck.oracle_evaluations += 1
-                want = "NotImplementedError"
-                for names, cname in hist:
-                    if sfx in names:
-                        want = cname
-                before_fds = fds_on(tdp / f"hist{sfx}")
-                try:
-                    with reg2.open_workbook(tdp / f"hist{sfx}") as wb2:
-                        out = type(wb2).__name__
-                except NotImplementedError:
-                    out = "NotImplementedError"
-                except BaseException as ex:  # noqa: BLE001
-                    out = err_enum(ex)
-                inp2 = {"history": regs2, "suffix": sfx}
-                if out != want:
-                    ck.fail("registration-history", f"history {regs2}: suffix {sfx} gives {out}, the last registration naming it is {want}", inp2)
-                if fds_on(tdp / f"hist{sfx}") != before_fds:
-                    ck.fail("registration-history-fd", f"history {regs2}: opening {sfx} left a descriptor on the file", inp2)
-                reqs.append(f"FAC open {sfx} " + " ".join(regs2))
-                impl.append(out)
-                inputs.append(inp2)
+            # ONE registry object: every suffix is really opened after EACH registration of the history (and before the first), so
+            # that an open lies between any two registrations; by registry_history the prefix registered so far decides
+            for upto in range(len(hist) + 1):
+                if upto:
+                    names, cname = hist[upto - 1]
+                    reg2.file_suffix(*names)(classes[cname])
+                regs2 = [",".join(names) + "=" + cname for names, cname in hist[:upto]]
+                for sfx in vocab + [".zz"]:
+                    ck.case(("reghist", tuple(regs2), sfx), feature=f"registry-history/{upto}")
+                    ck.oracle_evaluations += 1
+                    want = "NotImplementedError"
+                    for names, cname in hist[:upto]:
+                        if sfx in names:
+                            want = cname
+                    before_fds = fds_on(tdp / f"hist{sfx}")
+                    try:
+                        with reg2.open_workbook(tdp / f"hist{sfx}") as wb2:
+                            out = type(wb2).__name__
+                    except NotImplementedError:
+                        out = "NotImplementedError"
+                    except BaseException as ex:  # noqa: BLE001
+                        out = err_enum(ex)
+                    inp2 = {"history": regs2, "suffix": sfx, "opened_after_every_registration": True}
+                    if out != want:
+                        ck.fail("registration-history", f"registrations so far {regs2} (every suffix opened after each of them): suffix {sfx} "
+                                                        f"gives {out}, the last registration naming it is {want}", inp2)
+                    if fds_on(tdp / f"hist{sfx}") != before_fds:
+                        ck.fail("registration-history-fd", f"history {regs2}: opening {sfx} left a descriptor on the file", inp2)
+                    if upto == len(hist) or rng.random() < 0.3:
+                        reqs.append(f"FAC open {sfx} " + " ".join(regs2))
+                        impl.append(out)
+                        inputs.append(inp2)
     model = ck.driver.run(reqs)
     ck.compare_streams("real workbook life cycle / registry vs Facade.lrun / openWorkbook", inputs, impl, model)
 
